@@ -75,6 +75,7 @@ pub struct Shadow {
   pub known: BTreeSet<u32>,
   pending_stamp: Vec<Option<i32>>,
   pending_chk: Vec<String>,
+  last_req_call: Option<(u32, u32)>,
 }
 
 impl Shadow {
@@ -84,6 +85,7 @@ impl Shadow {
       known: BTreeSet::new(),
       pending_stamp: vec![None; n_tasks],
       pending_chk: vec![String::new(); n_tasks],
+      last_req_call: None,
     }
   }
 
@@ -101,11 +103,19 @@ impl Shadow {
         t.status = Status::Completed;
         t.output = Some(*out);
       }
-      Ev::Abort { .. } => {
+      Ev::Abort { msg } => {
+        // A require rejected as cyclic never got its reserved edge (the graph rolls the insertion back).
+        if msg.starts_with("Cyclic task dependency") {
+          if let Some((task, target)) = self.last_req_call {
+            let d = &mut self.tasks[task as usize].decls;
+            if matches!(d.last(), Some(x) if x.kind == DKind::Reserved && x.target == target) { d.pop(); }
+          }
+        }
         for t in self.tasks.iter_mut() { if t.status == Status::Running { t.status = Status::Partial; } }
       }
       Ev::ReqCall { task, target, .. } => {
         self.known.insert(*target);
+        self.last_req_call = Some((*task, *target));
         self.tasks[*task as usize].decls.push(Decl { kind: DKind::Reserved, target: *target, chk: String::new(), stamp: 0 });
       }
       Ev::OStamp { owner, ok, target, stamp, .. } => {
